@@ -1,13 +1,11 @@
 // ad-hoc probe (not used by any check)
-use qrlew::{relation::Relation, sql::{parse, relation::QueryWithRelations}};
+use qrlew::{relation::Relation, sql::{parse, relation::QueryWithRelations}, differential_privacy::DpParameters};
 fn main() {
     let rels = qvh::s_rules::world();
     for sql in std::env::args().skip(1) {
         let q = parse(&sql).unwrap();
-        match std::panic::catch_unwind(std::panic::AssertUnwindSafe(|| Relation::try_from(QueryWithRelations::new(&q, &rels)))) {
-            Ok(Ok(r)) => println!("OK {sql}\n"),
-            Ok(Err(e)) => println!("{sql}\nERR {e}\n"),
-            Err(_) => println!("{sql}\nPANIC\n"),
-        }
+        let r = Relation::try_from(QueryWithRelations::new(&q, &rels)).unwrap();
+        let dp = r.rewrite_with_differential_privacy(&rels, None, qvh::s_rules::privacy_unit(), DpParameters::from_epsilon_delta(1.0, 1e-5)).unwrap();
+        println!("{}\n{}", dp.relation(), dp.dp_event());
     }
 }
